@@ -109,21 +109,6 @@ def parseAns : List String → Ans
   | "panic" :: _ => .refused "panic"
   | _ => .bad
 
-mutual
-/-- does the term contain a loop that is iterated zero times over a body that does not claim
-(the class of finding C06-loop0-nonclaiming-accepts; the body's flags are the model's, which agree
-with the implementation's by (A))? -/
-partial def hasLoop0 : G → Bool
-  | .C g => hasLoop0 g
-  | .Kron a b => hasLoop0 a || hasLoop0 b
-  | .Composite _ _ ops => opsHasLoop0 ops
-  | .Loop _ iters _ _ body => (iters == 0 && !allStabT Gen.conjTable body) || opsHasLoop0 body
-  | _ => false
-partial def opsHasLoop0 : OpList Float → Bool
-  | .nil => false
-  | .cons g _ rest => hasLoop0 g || opsHasLoop0 rest
-end
-
 def strDigits (ops : List P) : String := joinNats (ops.map P.toBits)
 
 open Q1t.Spec.Clifford in
@@ -136,7 +121,8 @@ def checkConjAll (g : G) (flag : Bool) (answers : List (List String)) (mat : Opt
     -- a gate that does not claim must refuse every string
     match (strings.zip answers).find? (fun sa => match parseAns sa.2 with | .refused _ => false | _ => true) with
     | some (s, a) =>
-      let cls := if hasLoop0 g then "nonclaiming-accepts-loop0" else "nonclaiming-accepts"
+      -- (also a loop iterated zero times over a non-claiming body: finding C06-loop0-nonclaiming-accepts is fixed)
+      let cls := "nonclaiming-accepts"
       -- is the accepted answer at least exact?
       let exact := match mat, parseAns a with
         | some M, .ok fl o => o.length = k && maxDist (conjBy Float M (pauliMat Float s)) (signed fl (pauliMat Float o)) ≤ 1e-9
@@ -203,7 +189,7 @@ def specCheck (line : String) : String :=
           match parseAns (words ans) with
           | .refused _ => "ok"
           | _ =>
-            let cls := if hasLoop0 g then "nonclaiming-accepts-loop0" else "nonclaiming-accepts"
+            let cls := "nonclaiming-accepts"
             s!"fail {cls} is_stabilizer()=false but conjugate([{" ".intercalate (rest.headD [])}]) returned {ans}"
         else "skip"
       | _, _ => "fail bad-request"
